@@ -43,6 +43,13 @@ NONASCII = ["// café 中文\nint x;\n", "const char* s = \"über €\"; // é\n
             # characters outside the Basic Multilingual Plane (surrogate pairs in UTF-16 / JSON)
             "/// returns a smile \U0001F600\nint smile();\n", "const char* s = u8\"\U0001F600 \U0001D400\";\n",
             "struct S { int m; ///< member \U0001D400\n};\n", "#pragma message(\"\U0001F600\")\n"]
+# characters that str.splitlines() treats as line boundaries but the lexer (and C++) do not: inside comments and
+# string literals they are ordinary characters, and reading a file must not turn them into newlines
+LINEISH = []
+for _c in ("\x0b", "\x0c", "\x1c", "\x1d", "\x1e", "\x85", "\u2028", "\u2029"):
+    LINEISH += ["// note" + _c + "int hidden;\nint x;\n", "const char* s = \"a" + _c + "b\";\nint y;\n",
+                "/* c" + _c + " */ int z;\n", "/// doc" + _c + "more\nint w;\n", "int v; ///< t" + _c + "u\nint q;\n"]
+LINEISH += ["int a;\n\n\n", "int a;", "\n\nint a;\n", "int a;\r\nint b;\r\n", "// c\\\nint cont;\nint d;\n"]
 
 
 def tag(v):
@@ -68,7 +75,7 @@ def eval_ns():
 
 def run(ctx):
     rng = ctx.rng("entry")
-    texts = [t for t in pcommon.corpus()] + NONASCII + ["", "\n", "int only;"]
+    texts = [t for t in pcommon.corpus()] + NONASCII + LINEISH + ["", "\n", "int only;"]
     for _ in range(ctx.budget(60, 1000)):
         texts.append(gen_prog.gen_program(rng, budget=5)[0])
         texts.append(gen_prog.gen_class_program(rng)[0])
@@ -102,7 +109,7 @@ def run(ctx):
     tmp = tempfile.mkdtemp(prefix="verif_c20_")
     nfile = 0
     try:
-        sub = datas if ctx.tier == "thorough" else datas[:: max(1, len(datas) // 60)] + [x for x in datas if any(ord(c) > 127 for c in x[0])] + [x for x in datas if x[0] in ("", "\n")]
+        sub = datas if ctx.tier == "thorough" else datas[:: max(1, len(datas) // 60)] + [x for x in datas if any(ord(c) > 127 for c in x[0])] + [x for x in datas if x[0] in ("", "\n")] + [x for x in datas if x[0] in LINEISH]
         for i, (t, d) in enumerate(sub):
             for enc, explicit in (("utf-8", None), ("utf-8", "utf-8"), ("utf-8-sig", None), ("utf-8-sig", "utf-8-sig"), ("latin-1", "latin-1"), ("utf-16", "utf-16")):
                 try:
